@@ -12,6 +12,9 @@ RULE = ("enumerate: all range(a,b,s) with a,b in [-34,34] (thorough [-70,70]), s
         "all Const(v, shape) with v in [-300,300] x widths 0..8 (thorough 0..12) x signedness, "
         "Const(v), Const(v, int), Const(v, range); bits_for/ceil_log2 on [-5000,5000] and 2^k+-1 "
         "(k<=200); range-shaped and plain Signal inits; MemoryData init rows. sample: huge ranges, "
+        "histories of memory init updates (constructor, .init = rows, .init[i] = v, .init[a:b:s] = rows on "
+        "hdl.MemoryData and lib.memory.Memory, plain and enum row shapes) against a wrapping list model after "
+        "every step, a quarter read back in simulation (row objects and a read port); "
         "random integer Enum/IntEnum/Flag classes (plain and amaranth.lib.enum without shape), "
         "random Cat/Slice constant trees.  distinct/non-trivial: distinct (kind, arguments) with "
         "at least one element/bit (width>0 or non-empty range).")
@@ -280,6 +283,126 @@ def check_inits(c, part, parts, lim):
     c.out["exhaustive"].append(f"Signal(range(a,b,s), init=v) |bounds|<={lim}; Signal/MemoryData init widths 0..5 v in [-40,40]")
 
 
+def check_init_histories(c, rng, n):
+    """Memory initial rows stored in every way the API offers (constructor, `.init = rows`, `.init[i] = v`,
+    `.init[a:b:s] = rows`, through hdl.MemoryData and lib.memory.Memory) against a list model that wraps each row
+    like a constant of the row shape; the rows are compared after every step (public view and the raw integers the
+    back ends and the simulator read), and for some histories read back in simulation through `ctx.get(row)` and
+    a read port."""
+    from amaranth.hdl import Shape, MemoryData, Const, Module, Signal
+    from amaranth.lib import memory as libmem, enum as aenum
+    from amaranth.sim import Simulator
+
+    class EU(aenum.Enum, shape=3):
+        A = 0
+        B = 5
+        C = 7
+
+    class ES(aenum.Enum, shape=Shape(3, True)):
+        N = -4
+        Z = 0
+        P = 3
+    for _ in range(n):
+        depth = rng.randrange(1, 7)
+        kind = rng.random()
+        if kind < 0.8:
+            w = rng.randrange(0, 9)
+            sg = rng.random() < 0.5 and w > 0
+            shape = Shape(w, sg)
+            members = None
+            rnd = lambda: rng.choice([rng.randrange(-300, 300), rng.randrange(-(1 << w) - 2, (1 << w) + 3), 0, -1])
+            wrap = lambda v: norm(v, w, sg)
+            raw_of = lambda v: norm(v, w, sg) & ((1 << w) - 1)
+            view = wrap
+        else:
+            E = rng.choice([EU, ES])
+            shape = E
+            members = list(E)
+            w, sg = 3, E is ES
+            rnd = lambda: rng.choice(members)
+            raw_of = lambda v: v.value & 7
+            view = lambda v: v
+        use_lib = rng.random() < 0.4
+        first = [rnd() for _ in range(rng.randrange(0, depth + 1))]
+        default = 0 if members is None else None
+        ops = [["ctor", first]]
+        for _ in range(rng.randrange(0, 5)):
+            k = rng.random()
+            if k < 0.35:
+                ops.append(["setitem", rng.randrange(-depth, depth), rnd()])
+            elif k < 0.85:
+                sl = slice(rng.choice([None, rng.randrange(-depth, depth + 1)]), rng.choice([None, rng.randrange(-depth, depth + 1)]),
+                           rng.choice([None, 1, 2, -1]))
+                cnt = len(range(*sl.indices(depth)))
+                ops.append(["setslice", [sl.start, sl.stop, sl.step], [rnd() for _ in range(cnt)]])
+            else:
+                ops.append(["assign", [rnd() for _ in range(rng.randrange(0, depth + 1))]])
+        desc = {"shape": repr(shape), "depth": depth, "lib_memory": use_lib,
+                "ops": [[o[0]] + [repr(x) for x in o[1:]] for o in ops]}
+        c.case("memory-init-history", desc, nontrivial=w > 0 and len(ops) > 1)
+        try:
+            obj = (libmem.Memory if use_lib else MemoryData)(shape=shape, depth=depth, init=first)
+            md = obj.data if use_lib else obj
+            none_raw = Const.cast(Const(None, shape)).value & ((1 << w) - 1) if members is not None else 0
+            model = [view(v) for v in first] + [default] * (depth - len(first))
+            raws = [raw_of(v) for v in first] + [none_raw] * (depth - len(first))
+            for step, op in enumerate(ops):
+                if op[0] == "setitem":
+                    obj.init[op[1]] = op[2]
+                    model[op[1]] = view(op[2])
+                    raws[op[1]] = raw_of(op[2])
+                elif op[0] == "setslice":
+                    sl = slice(*op[1])
+                    obj.init[sl] = op[2]
+                    for i, v in zip(range(*sl.indices(depth)), op[2]):
+                        model[i] = view(v)
+                        raws[i] = raw_of(v)
+                elif op[0] == "assign":
+                    obj.init = op[1]
+                    model = [view(v) for v in op[1]] + [default] * (depth - len(op[1]))
+                    raws = [raw_of(v) for v in op[1]] + [none_raw] * (depth - len(op[1]))
+                c.out["hist"]["memory-init-op:" + op[0]] = c.out["hist"].get("memory-init-op:" + op[0], 0) + 1
+                got = list(obj.init)
+                got_raw = [r & ((1 << w) - 1) for r in md.init._raw]
+                unmasked = [r for r in md.init._raw if not (-(1 << w) < r < (1 << w))] if members is None else []
+                in_range = all(fits(r, w, sg) for r in md.init._raw) if members is None else True
+                if got != model or got_raw != raws or not in_range:
+                    c.viol("memory-init-rows-differ-from-wrapped-model:after-" + op[0], case=desc, step=step, rows=repr(got),
+                           raw=list(md.init._raw), expected=repr(model), expected_raw=raws)
+                    raise StopIteration
+            if rng.random() < 0.25 and w > 0:
+                # read the rows back in simulation: row objects and a combinational read port
+                mem = obj if use_lib else libmem.Memory(md)
+                m = Module()
+                m.submodules.mem = mem
+                rp = mem.read_port(domain="comb")
+                seen = []
+
+                async def tb(ctx):
+                    for i in range(depth):
+                        ctx.set(rp.addr, i)
+                        v1, v2 = ctx.get(md[i]), ctx.get(rp.data)
+                        seen.append([v1 if members is None else v1, v2 if members is None else v2])
+                sim = Simulator(m)
+                sim.add_testbench(tb)
+                sim.run()
+                exp = [[model[i], model[i]] if members is None else None for i in range(depth)]
+                if members is None:
+                    if seen != exp:
+                        c.viol("memory-init-rows-read-in-simulation-differ", case=desc, seen=seen, expected=exp)
+                else:
+                    rawseen = [[Const.cast(Const(a, shape)).value & 7, Const.cast(Const(b, shape)).value & 7] for a, b in seen]
+                    if rawseen != [[r, r] for r in raws]:
+                        c.viol("memory-init-rows-read-in-simulation-differ", case=desc, seen=repr(seen), expected_raw=raws)
+                c.out["hist"]["memory-init-history-simulated"] = c.out["hist"].get("memory-init-history-simulated", 0) + 1
+        except StopIteration:
+            pass
+        except Exception as ex:
+            if exc_origin(ex) != "repo":
+                raise
+            c.viol("memory-init-history:exception", case=desc, exception=repr(ex)[:300])
+
+
 def run_shard(spec):
     instrument.install_construction_contracts()
     c = Ctx()
@@ -293,6 +416,7 @@ def run_shard(spec):
     check_enums(c, rng, 150 if tier == "quick" else 20000)
     check_const_cast(c, rng, 400 if tier == "quick" else 60000)
     check_inits(c, part, parts, 6 if tier == "quick" else 10)
+    check_init_histories(c, rng, 150 if tier == "quick" else 6000)
     out = c.out
     out["violations"].extend(instrument.VIOLATIONS)
     instrument.VIOLATIONS.clear()
